@@ -4,6 +4,6 @@ CONSTANTS
   Modes <- AllModes
   AllowDup = TRUE
   Emit = FALSE
-INVARIANTS OrderIndependent ErrorOnlyOnDup NeverEarly
+INVARIANTS OrderIndependent ErrorOnlyOnDup NeverEarly HeaderFromFragmentZero
 PROPERTIES Terminates
 CHECK_DEADLOCK FALSE
